@@ -213,11 +213,9 @@ func (c *Conn) waitCloseHandshake() error {
 		return c.closeReceived
 	}
 
-	for i := int64(0); i < c.msgReader.payloadLength; i++ {
-		_, err := c.br.ReadByte()
-		if err != nil {
-			return err
-		}
+	err = c.discardPayload(ctx, c.msgReader.payloadLength)
+	if err != nil {
+		return err
 	}
 
 	for {
@@ -226,13 +224,30 @@ func (c *Conn) waitCloseHandshake() error {
 			return err
 		}
 
-		for i := int64(0); i < h.payloadLength; i++ {
-			_, err := c.br.ReadByte()
-			if err != nil {
-				return err
-			}
+		err = c.discardPayload(ctx, h.payloadLength)
+		if err != nil {
+			return err
 		}
 	}
+}
+
+// discardPayload reads and drops n bytes of frame payload. It goes through
+// readFramePayload so that ctx bounds the reads: a peer that stops sending in
+// the middle of a payload must not be able to block Close forever.
+func (c *Conn) discardPayload(ctx context.Context, n int64) error {
+	var buf [512]byte
+	for n > 0 {
+		p := buf[:]
+		if int64(len(p)) > n {
+			p = p[:n]
+		}
+		m, err := c.readFramePayload(ctx, p)
+		if err != nil {
+			return err
+		}
+		n -= int64(m)
+	}
+	return nil
 }
 
 func (c *Conn) waitGoroutines() error {
